@@ -5,8 +5,10 @@ package main
 // reference implementation under the target schema; TLC judges (spec/Trace_PCut.tla, PCut!PProj).
 
 import (
+	"bytes"
 	"encoding/json"
 	"fmt"
+	"google.golang.org/protobuf/reflect/protoreflect"
 	"math/rand"
 
 	pgen "github.com/cloudwego/dynamicgo/proto/generic"
@@ -146,6 +148,47 @@ func (c *c11p) genRandom(seed int64, base, n int) {
 	}
 }
 
+// bigDropped: a nested message (singular, list element, map value) carrying a payload of 100 .. 20000 bytes in a field the
+// target does not have: the length prefix of the cut message is one, two or three bytes shorter than the source's
+func (c *c11p) bigDropped(base int) {
+	s := PSchema{Root: "Root", Msgs: map[string][]PField{
+		"Root": {{Num: 1, Name: "one", Kind: "message", Msg: "Sub", Card: "one"}, {Num: 2, Name: "many", Kind: "message", Msg: "Sub", Card: "rep"},
+			{Num: 3, Name: "byk", Kind: "message", Msg: "Sub", Card: "map", KKind: "string"}, {Num: 4, Name: "tail", Kind: "string", Card: "one"}},
+		"Sub": {{Num: 1, Name: "keep", Kind: "string", Card: "one"}, {Num: 2, Name: "big", Kind: "bytes", Card: "one"}, {Num: 3, Name: "n", Kind: "int32", Card: "one"}}}}
+	c.setSchema(s)
+	fd := func(md protoreflect.MessageDescriptor, name string) protoreflect.FieldDescriptor {
+		return md.Fields().ByName(protoreflect.Name(name))
+	}
+	i := 0
+	for _, size := range []int{100, 127, 128, 200, 16383, 16384, 20000} {
+		for _, pos := range []string{"one", "many", "byk"} {
+			if base+i >= startAt {
+				root := dynamicpb.NewMessage(c.src.rroot)
+				subMD := fd(c.src.rroot, "one").Message()
+				sub := dynamicpb.NewMessage(subMD)
+				sub.Set(fd(subMD, "keep"), protoreflect.ValueOfString("k"))
+				sub.Set(fd(subMD, "big"), protoreflect.ValueOfBytes(bytes.Repeat([]byte{0xAB}, size)))
+				sub.Set(fd(subMD, "n"), protoreflect.ValueOfInt32(7))
+				switch pos {
+				case "one":
+					root.Set(fd(c.src.rroot, "one"), protoreflect.ValueOfMessage(sub))
+				case "many":
+					l := root.Mutable(fd(c.src.rroot, "many")).List()
+					l.Append(protoreflect.ValueOfMessage(dynamicpb.NewMessage(subMD)))
+					l.Append(protoreflect.ValueOfMessage(sub))
+				case "byk":
+					root.Mutable(fd(c.src.rroot, "byk")).Map().Set(protoreflect.ValueOfString("key").MapKey(), protoreflect.ValueOfMessage(sub))
+				}
+				root.Set(fd(c.src.rroot, "tail"), protoreflect.ValueOfString("after"))
+				pc := PCutCase{B: B(refMarshal(root)), Drop: []PDrop{{M: "Sub", Num: 2}}}
+				c.out.Begin(base+i, PCutCase{Schema: &c.src.schema, Drop: pc.Drop, Add: pc.Add, B: pc.B})
+				c.run(pc)
+			}
+			i++
+		}
+	}
+}
+
 func c11pMain(args map[string]string) {
 	out := newOut(args["out"])
 	defer out.Close()
@@ -170,6 +213,7 @@ func c11pMain(args map[string]string) {
 	}
 	if n := atoi(args["n"]); n > 0 {
 		c.genRandom(int64(atoi(args["seed"])), idx, n)
+		c.bigDropped(idx + n)
 	}
 	fmt.Printf("c11p cases=%d events=%d\n", c.cases, out.n)
 }
